@@ -4,8 +4,9 @@ import YgmVerif.Lemmas.BagOps
 
 Theorems about `YgmVerif.BagOps` (model of bag.hpp / detail/bag.ipp / tagged_bag.hpp above `Part`).
 For all item types, all communicator sizes `ranks > 0`, all placements (empty ranks, everything on one
-rank, fewer items than ranks, no items), all iteration orders of `to_send`, all execution orders of
-the messages, all shuffle outcomes.  `rebalance` is the repaired one (`% ranks`); `pinned_traps`
+rank, fewer items than ranks, no items), all iteration orders of `to_send`, all interleavings of the
+ranks' local actions with the executions of the messages (a vector shipped by a fast rank may be
+appended to a slow rank's bag before that rank pops or swaps out), all shuffle outcomes.  `rebalance` is the repaired one (`% ranks`); `pinned_traps`
 records that the expression found in the tree divides by zero.
 -/
 namespace YgmVerif.BagOps
@@ -50,171 +51,290 @@ theorem sizes_getD (b : Bag α) (r : Nat) : (sizes b).getD r 0 = (b.bags.getD r 
   simp only [sizes, List.getD_eq_getElem?_getD, List.getElem?_map]
   cases b.bags[r]? <;> simp
 
-theorem rebalance_inv {b b' : Bag α} {ords : List (List Nat)} {sched : List Nat}
-    (h : rebalance b ords sched = some b') :
-    ∃ plan, rebalancePlan b ords = some plan ∧
-      deliverSched { b with bags := plan.map (·.1) } (planMsgs plan) sched = some b' := by
+theorem rebalance_inv {b b' : Bag α} {ords : List (List Nat)} {evs : List Ev}
+    (h : rebalance b ords evs = some b') :
+    rebalanceOk b ords = true ∧ ∃ st, (rebalanceInit b ords).run evs = some st ∧ st.done = true ∧
+      b' = { b with bags := st.bags } := by
   unfold rebalance at h
   split at h
+  next hok =>
+    split at h
+    next st hst =>
+      split at h
+      next hd => exact ⟨hok, st, hst, hd, (Option.some.inj h).symm⟩
+      · simp at h
+    · simp at h
   · simp at h
-  · exact ⟨_, by assumption, h⟩
 
-/-- what the plan of a well-formed bag looks like, rank by rank -/
-theorem plan_spec {b : Bag α} {ords : List (List Nat)} {plan : List (List α × List (Msg α))}
-    (hw : WF b) (hr : 0 < b.ranks) (h : rebalancePlan b ords = some plan) :
-    plan.length = b.ranks ∧
-    ∀ s (hs : s < plan.length),
-      plan[s].1.length = cntT (total b) b.ranks (prefixOf (sizes b) s) ((sizes b).getD s 0) s ∧
-      (∀ d, d < b.ranks → recv plan[s].2 d =
-        sendCount (total b) b.ranks (prefixOf (sizes b) s) ((sizes b).getD s 0) s d) ∧
-      b.bags.getD s [] = plan[s].1 ++ plan[s].2.reverse.flatMap (·.items) ∧
-      (∀ m ∈ plan[s].2, m.dest < b.ranks) := by
-  obtain ⟨hl, hp⟩ := allSome_map_range h
-  refine ⟨hl, ?_⟩
-  intro s hs
-  have hsr : s < b.ranks := by omega
-  have h1 := hp s hsr
-  rw [List.getElem?_eq_getElem hs] at h1
-  have hle : prefixOf (sizes b) s + (b.bags.getD s []).length ≤ total b := by
+theorem rebalanceOk_inv {b : Bag α} {ords : List (List Nat)} (h : rebalanceOk b ords = true) (r : Nat) (hr : r < b.ranks) :
+    (ords.getD r []).Perm (sendKeys (total b) b.ranks (prefixOf (sizes b) r) (b.bags.getD r []).length r) := by
+  unfold rebalanceOk at h
+  rw [List.all_eq_true] at h
+  have := h r (List.mem_range.mpr hr)
+  simp only [Bool.and_eq_true] at this
+  exact List.isPerm_iff.mp this.2
+
+theorem rebalanceOk_of_perms (b : Bag α) (ords : List (List Nat)) (hr : 0 < b.ranks)
+    (hords : ∀ r, r < b.ranks → (ords.getD r []).Perm
+      (sendKeys (total b) b.ranks (prefixOf (sizes b) r) (b.bags.getD r []).length r)) :
+    rebalanceOk b ords = true := by
+  unfold rebalanceOk
+  rw [List.all_eq_true]
+  intro r hrr
+  have hrr' := List.mem_range.mp hrr
+  have hle : prefixOf (sizes b) r + (b.bags.getD r []).length ≤ total b := by
     rw [← sizes_getD, ← prefixOf_succ]; exact prefixOf_le_sum _ _
-  have := rebalanceRank_spec (k := plan[s].1) (ms := plan[s].2) hr hsr hle h1
-  rw [sizes_getD]
-  exact this
+  rw [no_traps _ _ _ _ hr hle, List.isPerm_iff.mpr (hords r hrr')]
+  rfl
 
-/-- **rebalance_counts**: after `rebalance`, whatever the iteration order of `to_send` and the
-execution order of the shipped vectors, rank `r` holds exactly `Part.localSize total ranks r` items —
-the block sizes of an array of that length (so they differ by at most one), for every total
-including `0` and totals below the number of ranks -/
-theorem rebalance_counts {b b' : Bag α} {ords : List (List Nat)} {sched : List Nat}
-    (hw : WF b) (hr : 0 < b.ranks) (h : rebalance b ords sched = some b') :
+theorem owedAt_acts (c : Nat → Nat) (ord : List Nat) (r : Nat) :
+    owedAt r (ord.map (fun t => Act.pop t (c t))) = ((ord.filter (fun t => t == r)).map c).sum := by
+  induction ord with
+  | nil => rfl
+  | cons t ts ih =>
+    unfold owedAt at ih ⊢
+    rw [List.map_cons, List.filter_cons, List.filter_cons]
+    by_cases h : t = r
+    · simp [Act.goesTo, h, Act.size] at ih ⊢; rw [ih]
+    · simp [Act.goesTo, h] at ih ⊢; rw [ih]
+
+theorem needOf_acts (c : Nat → Nat) (ord : List Nat) :
+    needOf (ord.map (fun t => Act.pop t (c t))) = (ord.map c).sum := by
+  unfold needOf
+  rw [List.map_map]
+  rfl
+
+/-- the state right after the second barrier of `rebalance` satisfies the counting invariant with
+target = the block sizes of an array of length `total` -/
+theorem rebalanceInit_inv (b : Bag α) (ords : List (List Nat)) (hw : WF b) (hr : 0 < b.ranks)
+    (hok : rebalanceOk b ords = true) :
+    RInv (localSize (total b) b.ranks) (rebalanceInit b ords) := by
+  have htodo : ∀ s, s < b.ranks → (rebalanceInit b ords).todo.getD s [] =
+      rebalanceActs (total b) b.ranks (prefixOf (sizes b) s) (b.bags.getD s []).length s (ords.getD s []) := by
+    intro s hs
+    simp [rebalanceInit, List.getD_eq_getElem?_getD, List.getElem?_range hs]
+  have htodo' : ∀ s, b.ranks ≤ s → (rebalanceInit b ords).todo.getD s [] = [] := by
+    intro s hs
+    simp [rebalanceInit, List.getD_eq_getElem?_getD, List.getElem?_eq_none, hs]
+  have hle : ∀ s, prefixOf (sizes b) s + (b.bags.getD s []).length ≤ total b := by
+    intro s; rw [← sizes_getD, ← prefixOf_succ]; exact prefixOf_le_sum _ _
+  have hneed : ∀ s, s < b.ranks → needOf ((rebalanceInit b ords).todo.getD s []) =
+      ((List.range b.ranks).map (sendCount (total b) b.ranks (prefixOf (sizes b) s) (b.bags.getD s []).length s)).sum := by
+    intro s hs
+    rw [htodo s hs, rebalanceActs, needOf_acts, ((rebalanceOk_inv hok s hs).map _).sum_nat, sum_sendKeys]
+  have hlen0 : (rebalanceInit b ords).todo.length = (rebalanceInit b ords).bags.length := by
+    show ((List.range b.ranks).map _).length = b.bags.length
+    rw [List.length_map, List.length_range]; exact hw.symm
+  refine ⟨hlen0, ?_, ?_, ?_, by simp [rebalanceInit], ?_⟩
+  · intro l hl a ha
+    simp only [rebalanceInit, List.mem_map, List.mem_range] at hl
+    obtain ⟨s, _, rfl⟩ := hl
+    simp only [rebalanceActs, List.mem_map] at ha
+    obtain ⟨t, _, rfl⟩ := ha
+    rfl
+  · intro r hrb
+    have hrr : r < b.ranks := by rw [← hw]; exact hrb
+    simp only [Net.load, Net.owed, Net.need]
+    rw [hneed r hrr]
+    have hlen : (rebalanceInit b ords).todo.length = b.ranks := by simp [rebalanceInit]
+    rw [hlen]
+    have howed : (List.range b.ranks).map (fun s => owedAt r ((rebalanceInit b ords).todo.getD s [])) =
+        (List.range b.ranks).map (fun s =>
+          sendCount (total b) b.ranks (prefixOf (sizes b) s) (b.bags.getD s []).length s r) := by
+      apply List.map_congr_left
+      intro s hs
+      have hs' := List.mem_range.mp hs
+      rw [htodo s hs', rebalanceActs, owedAt_acts, (((rebalanceOk_inv hok s hs').filter _).map _).sum_nat,
+        sum_sendKeys_at _ _ _ _ _ _ hrr]
+    rw [howed]
+    have hflight : recv (rebalanceInit b ords).flight r = 0 := by simp [rebalanceInit, recv_nil]
+    have hbags : (rebalanceInit b ords).bags = b.bags := rfl
+    rw [hflight, hbags]
+    -- held = kept + sent;  kept + received = block size
+    have h1 := sum_sendCount (total b) b.ranks (prefixOf (sizes b) r) (b.bags.getD r []).length r hr hrr (hle r)
+    have hsplit : (List.range b.ranks).map (fun s =>
+          cntT (total b) b.ranks (prefixOf (sizes b) s) ((sizes b).getD s 0) r) =
+        (List.range b.ranks).map (fun s =>
+          sendCount (total b) b.ranks (prefixOf (sizes b) s) (b.bags.getD s []).length s r +
+          (if s = r then cntT (total b) b.ranks (prefixOf (sizes b) s) (b.bags.getD s []).length r else 0)) := by
+      apply List.map_congr_left
+      intro s _
+      rw [sizes_getD]
+      unfold sendCount
+      by_cases hs : r = s
+      · subst hs; simp
+      · have : ¬ (s = r) := fun h => hs h.symm
+        simp [hs, this]
+    have hall := sum_cntT_prefix (total b) b.ranks r (sizes b) b.ranks
+    rw [hsplit, sum_map_add, sum_indicator] at hall
+    simp only [hrr, if_true] at hall
+    have hlen2 : b.ranks = (sizes b).length := by simp [sizes]; exact hw.symm
+    have htot : prefixOf (sizes b) b.ranks = total b := by
+      rw [hlen2]; exact prefixOf_length _
+    rw [htot, cntT_total _ _ _ hr hrr] at hall
+    omega
+  · intro s
+    simp only [Net.need]
+    by_cases hs : s < b.ranks
+    · rw [hneed s hs]
+      have h1 := sum_sendCount (total b) b.ranks (prefixOf (sizes b) s) (b.bags.getD s []).length s hr hs (hle s)
+      have hbags : (rebalanceInit b ords).bags = b.bags := rfl
+      rw [hbags]; omega
+    · rw [htodo' s (by omega)]; simp [needOf]
+  · intro l hl a ha t n hat
+    simp only [rebalanceInit, List.mem_map, List.mem_range] at hl
+    obtain ⟨s, hs, rfl⟩ := hl
+    simp only [rebalanceActs, List.mem_map] at ha
+    obtain ⟨t', ht', rfl⟩ := ha
+    simp only [Act.pop.injEq] at hat
+    have := (rebalanceOk_inv hok s hs).mem_iff.mp ht'
+    unfold sendKeys at this
+    have := List.mem_range.mp (List.mem_filter.mp this).1
+    show t < b.bags.length
+    rw [hw, ← hat.1]; exact this
+
+/-- **rebalance_counts**: after `rebalance`, whatever the iteration order of the `to_send` maps and
+however the ranks' pops interleave with the executions of the shipped vectors, rank `r` holds exactly
+`Part.localSize total ranks r` items — the block sizes of an array of that length (so they differ by
+at most one), for every total including `0` and totals below the number of ranks -/
+theorem rebalance_counts {b b' : Bag α} {ords : List (List Nat)} {evs : List Ev}
+    (hw : WF b) (hr : 0 < b.ranks) (h : rebalance b ords evs = some b') :
     ∀ r, r < b.ranks → (b'.bags.getD r []).length = localSize (total b) b.ranks r := by
   intro r hrr
-  obtain ⟨plan, hplan, hdel⟩ := rebalance_inv h
-  obtain ⟨hl, hp⟩ := plan_spec hw hr hplan
-  have hspec := deliverSched_spec hdel
-  rw [hspec.2.2.2.2.1 r]
-  simp only []
-  -- what rank r kept
-  have hr' : r < plan.length := by omega
-  have hkept : ((plan.map (·.1)).getD r []).length =
-      cntT (total b) b.ranks (prefixOf (sizes b) r) ((sizes b).getD r 0) r := by
-    rw [List.getD_eq_getElem?_getD, List.getElem?_map, List.getElem?_eq_getElem hr']
-    exact (hp r hr').1
-  -- what rank r receives
-  have hrecv : recv (planMsgs plan) r = ((List.range b.ranks).map (fun s =>
-      sendCount (total b) b.ranks (prefixOf (sizes b) s) ((sizes b).getD s 0) s r)).sum := by
-    unfold planMsgs
-    rw [recv_flatMap]
-    congr 1
-    apply List.ext_getElem
-    · simp [hl]
-    · intro i h1 h2
-      simp only [List.getElem_map, List.getElem_range]
-      exact (hp i (by simpa using h1)).2.1 r hrr
-  rw [hkept, hrecv]
-  -- kept + received = all positions with target r
-  have hsplit : (List.range b.ranks).map (fun s =>
-        cntT (total b) b.ranks (prefixOf (sizes b) s) ((sizes b).getD s 0) r) =
-      (List.range b.ranks).map (fun s =>
-        sendCount (total b) b.ranks (prefixOf (sizes b) s) ((sizes b).getD s 0) s r +
-        (if s = r then cntT (total b) b.ranks (prefixOf (sizes b) s) ((sizes b).getD s 0) r else 0)) := by
-    apply List.map_congr_left
-    intro s _
-    unfold sendCount
-    by_cases hs : r = s
-    · subst hs; simp
-    · have : ¬ (s = r) := fun h => hs h.symm
-      simp [hs, this]
-  have hall := sum_cntT_prefix (total b) b.ranks r (sizes b) b.ranks
-  rw [hsplit, sum_map_add, sum_indicator] at hall
-  simp only [hrr, if_true] at hall
-  have hlen : b.ranks = (sizes b).length := by simp [sizes, hw.symm]
-  have htot : prefixOf (sizes b) b.ranks = total b := by
-    rw [hlen]; exact prefixOf_length _
-  rw [htot, cntT_total _ _ _ hr hrr] at hall
-  omega
+  obtain ⟨hok, st, hrun, hd, rfl⟩ := rebalance_inv h
+  have hinv := (rebalanceInit_inv b ords hw hr hok).run hrun
+  have hlen := (Net.run_conserved hrun).2.1
+  exact hinv.final hd r (by rw [hlen]; show r < b.bags.length; rw [hw]; exact hrr)
 
 /-- the sizes after `rebalance` differ by at most one -/
-theorem rebalance_balanced {b b' : Bag α} {ords : List (List Nat)} {sched : List Nat}
-    (hw : WF b) (hr : 0 < b.ranks) (h : rebalance b ords sched = some b') (r s : Nat)
+theorem rebalance_balanced {b b' : Bag α} {ords : List (List Nat)} {evs : List Ev}
+    (hw : WF b) (hr : 0 < b.ranks) (h : rebalance b ords evs = some b') (r s : Nat)
     (hrr : r < b.ranks) (hss : s < b.ranks) :
     (b'.bags.getD r []).length ≤ (b'.bags.getD s []).length + 1 := by
   rw [rebalance_counts hw hr h r hrr, rebalance_counts hw hr h s hss]
   exact sizes_differ_le_one _ _ _ _
 
-theorem flatten_plan_perm (plan : List (List α × List (Msg α))) :
-    ((plan.map (fun p => p.1 ++ p.2.reverse.flatMap (·.items))).flatten).Perm
-      ((plan.map (·.1)).flatten ++ (planMsgs plan).flatMap (·.items)) := by
-  induction plan with
-  | nil => simp [planMsgs]
-  | cons p ps ih =>
-    simp only [List.map_cons, List.flatten_cons, planMsgs, List.flatMap_cons, List.flatMap_append] at ih ⊢
-    have h1 : (p.2.reverse.flatMap (·.items)).Perm (p.2.flatMap (·.items)) :=
-      (List.reverse_perm p.2).flatMap_right _
-    -- (k ++ R) ++ rest  ~  (k ++ K) ++ (M ++ Ms)
-    refine ((List.Perm.append_left p.1 h1).append ih).trans ?_
-    simp only [List.append_assoc]
-    apply List.Perm.append_left
-    rw [← List.append_assoc, ← List.append_assoc]
-    exact List.Perm.append_right _ List.perm_append_comm
-
 /-- **items_conserved** for `rebalance`: the bag holds the same multiset afterwards, and the result
 is well-formed -/
-theorem rebalance_conserved {b b' : Bag α} {ords : List (List Nat)} {sched : List Nat}
-    (hw : WF b) (hr : 0 < b.ranks) (h : rebalance b ords sched = some b') :
+theorem rebalance_conserved {b b' : Bag α} {ords : List (List Nat)} {evs : List Ev}
+    (hw : WF b) (h : rebalance b ords evs = some b') :
     (items b').Perm (items b) ∧ WF b' ∧ b'.ranks = b.ranks := by
-  obtain ⟨plan, hplan, hdel⟩ := rebalance_inv h
-  obtain ⟨hl, hp⟩ := plan_spec hw hr hplan
-  have hspec := deliverSched_spec hdel
-  refine ⟨?_, ?_, hspec.1⟩
-  · refine hspec.2.2.2.1.trans ?_
-    simp only [items]
-    refine (flatten_plan_perm plan).symm.trans ?_
-    have : plan.map (fun p => p.1 ++ p.2.reverse.flatMap (·.items)) = b.bags := by
-      apply List.ext_getElem
-      · simp [hl, hw.symm]
-      · intro i h1 h2
-        simp only [List.getElem_map]
-        rw [← (hp i (by simpa using h1)).2.2.1, List.getD_eq_getElem?_getD, List.getElem?_eq_getElem h2]
-        rfl
-    rw [this]
-  · unfold WF
-    rw [hspec.2.2.1, hspec.1]
-    simp [hl]
+  obtain ⟨_, st, hrun, hd, rfl⟩ := rebalance_inv h
+  obtain ⟨hp, hl, _⟩ := Net.run_conserved hrun
+  obtain ⟨hf, _⟩ := Net.done_inv hd
+  refine ⟨?_, ?_, rfl⟩
+  · simpa [Net.all, hf, rebalanceInit, items] using hp
+  · show st.bags.length = b.ranks
+    rw [hl]; exact hw
 
-/-- `rebalance` of a well-formed bag never aborts: no division trap in the target computation, no
-failing `local_pop` assertion, no send outside the communicator — for every iteration order of the
-`to_send` maps and every execution order of the shipped vectors -/
+/-- **no abort in any interleaving**: after any sequence of events of a `rebalance` (any iteration
+orders of the `to_send` maps), every rank that still has a vector to pop can pop it (`local_pop`'s
+assertion holds even if nothing has arrived yet) and every vector in flight can be executed; no
+target computation divides by zero — for every total, including totals below the number of ranks -/
+theorem rebalance_never_aborts (b : Bag α) (ords : List (List Nat)) (hw : WF b) (hr : 0 < b.ranks)
+    (hords : ∀ r, r < b.ranks → (ords.getD r []).Perm
+      (sendKeys (total b) b.ranks (prefixOf (sizes b) r) (b.bags.getD r []).length r)) :
+    rebalanceOk b ords = true ∧
+    ∀ evs st, (rebalanceInit b ords).run evs = some st →
+      (∀ s ds a rest, st.todo[s]? = some (a :: rest) → (st.step (.act s ds)).isSome = true) ∧
+      (∀ k, k < st.flight.length → (st.step (.recv k)).isSome = true) := by
+  have hok := rebalanceOk_of_perms b ords hr hords
+  refine ⟨hok, ?_⟩
+  intro evs st hrun
+  exact ((rebalanceInit_inv b ords hw hr hok).run hrun).progress
+
+theorem le_sum_of_mem (L : List Nat) (x : Nat) (h : x ∈ L) : x ≤ L.sum := by
+  induction L with
+  | nil => simp at h
+  | cons y ys ih =>
+    rcases List.mem_cons.mp h with rfl | h
+    · simp
+    · have := ih h; simp only [List.sum_cons]; omega
+
+theorem sum_map_set_length {β : Type} (L : List (List β)) (s : Nat) (a : β) (rest : List β) (h : L[s]? = some (a :: rest)) :
+    ((L.set s rest).map List.length).sum + 1 = (L.map List.length).sum := by
+  induction L generalizing s with
+  | nil => simp at h
+  | cons l L ih =>
+    cases s with
+    | zero =>
+      simp only [List.getElem?_cons_zero, Option.some.injEq] at h
+      subst h; simp; omega
+    | succ s =>
+      simp only [List.getElem?_cons_succ] at h
+      have := ih s h
+      simp only [List.set_cons_succ, List.map_cons, List.sum_cons]; omega
+
+/-- from any state satisfying the invariant the protocol can be run to completion -/
+theorem RInv.complete {target : Nat → Nat} (n : Nat) : ∀ (st : Net α), RInv target st →
+    2 * (st.todo.map List.length).sum + st.flight.length ≤ n →
+    ∃ evs st', st.run evs = some st' ∧ st'.done = true := by
+  induction n with
+  | zero =>
+    intro st _ hm
+    have h1 : (st.todo.map List.length).sum = 0 := by omega
+    have h2 : st.flight = [] := List.eq_nil_of_length_eq_zero (by omega)
+    refine ⟨[], st, rfl, ?_⟩
+    unfold Net.done
+    simp only [h2, List.isEmpty_nil, Bool.and_true, List.all_eq_true, List.isEmpty_iff]
+    intro l hl
+    have : l.length ≤ (st.todo.map List.length).sum := le_sum_of_mem _ _ (List.mem_map_of_mem hl)
+    exact List.eq_nil_of_length_eq_zero (by omega)
+  | succ n ih =>
+    intro st hi hm
+    by_cases hall' : ∀ l ∈ st.todo, l = []
+    · have hall : st.todo.all (·.isEmpty) = true := by
+        rw [List.all_eq_true]; intro l hl; rw [hall' l hl]; rfl
+      cases hf : st.flight with
+      | nil =>
+        exact ⟨[], st, rfl, by unfold Net.done; simp [hall, hf]⟩
+      | cons m ms =>
+        have hk : 0 < st.flight.length := by rw [hf]; simp
+        have hs := hi.progress.2 0 hk
+        obtain ⟨st1, h1⟩ := Option.isSome_iff_exists.mp hs
+        have hi1 := hi.step h1
+        rcases Net.step_cases h1 with ⟨_, _, _, _, _, _, _, _, he, _⟩ | ⟨_, _, _, _, _, he, _⟩ | ⟨k, m', he, _, _, rfl⟩
+        · cases he
+        · cases he
+        · cases he
+          obtain ⟨evs, st', hr, hd⟩ := ih _ hi1 (by simp only [hf, List.eraseIdx_cons_zero, List.length_cons] at hm ⊢; omega)
+          exact ⟨.recv 0 :: evs, st', by simp only [Net.run, h1, Option.bind_some]; exact hr, hd⟩
+    · -- some rank still has an action
+      obtain ⟨l, hl'⟩ := Classical.not_forall.mp hall'
+      obtain ⟨hl, hne⟩ := Classical.not_imp.mp hl'
+      obtain ⟨s, hs, rfl⟩ := List.getElem_of_mem hl
+      cases hls : st.todo[s] with
+      | nil => exact absurd hls hne
+      | cons a rest =>
+        have ht : st.todo[s]? = some (a :: rest) := by rw [List.getElem?_eq_getElem hs, hls]
+        have hsome := hi.progress.1 s [] a rest ht
+        obtain ⟨st1, h1⟩ := Option.isSome_iff_exists.mp hsome
+        have hi1 := hi.step h1
+        rcases Net.step_cases h1 with ⟨s', ds, t, n', rest', l', kept, popped, he, ht', _, _, rfl⟩ |
+          ⟨s', _, rest', _, _, he, ht', _, _, _⟩ | ⟨_, _, he, _⟩
+        · cases he
+          rw [ht] at ht'
+          simp only [Option.some.injEq, List.cons.injEq] at ht'
+          obtain ⟨_, rfl⟩ := ht'
+          have hsum := sum_map_set_length st.todo s a rest ht
+          obtain ⟨evs, st', hr, hd⟩ := ih _ hi1 (by simp only [List.length_append, List.length_cons, List.length_nil]; omega)
+          exact ⟨.act s [] :: evs, st', by simp only [Net.run, h1, Option.bind_some]; exact hr, hd⟩
+        · cases he
+          have hmem : (Act.shuf :: rest') ∈ st.todo := List.mem_of_getElem? ht'
+          have := hi.pops _ hmem Act.shuf List.mem_cons_self
+          simp [Act.isPop] at this
+        · cases he
+
+/-- **rebalance_some**: `rebalance` of a well-formed bag can always be completed (and, by
+`rebalance_never_aborts`, no interleaving can get stuck in an abort) — for every total incl. 0 and
+totals below the number of ranks, every iteration order of the `to_send` maps -/
 theorem rebalance_some (b : Bag α) (ords : List (List Nat)) (hw : WF b) (hr : 0 < b.ranks)
     (hords : ∀ r, r < b.ranks → (ords.getD r []).Perm
       (sendKeys (total b) b.ranks (prefixOf (sizes b) r) (b.bags.getD r []).length r)) :
-    ∃ plan, rebalancePlan b ords = some plan ∧
-      ∀ sched, sched.Perm (List.range (planMsgs plan).length) → ∃ b', rebalance b ords sched = some b' := by
-  have hex : ∃ plan, rebalancePlan b ords = some plan := by
-    unfold rebalancePlan
-    apply allSome_of_forall
-    intro x hx
-    simp only [List.mem_map, List.mem_range] at hx
-    obtain ⟨r, hrr, rfl⟩ := hx
-    have hle : prefixOf (sizes b) r + (b.bags.getD r []).length ≤ total b := by
-      rw [← sizes_getD, ← prefixOf_succ]; exact prefixOf_le_sum _ _
-    obtain ⟨k, ms, hk⟩ := rebalanceRank_some (b.bags.getD r []) hr hrr hle (hords r hrr)
-    rw [hk]; rfl
-  obtain ⟨plan, hplan⟩ := hex
-  refine ⟨plan, hplan, ?_⟩
-  intro sched hs
-  obtain ⟨hl, hp⟩ := plan_spec hw hr hplan
-  unfold rebalance
-  rw [hplan]
-  simp only []
-  apply deliverSched_some _ _ _ hs
-  intro m hm
-  simp only [List.length_map, hl]
-  unfold planMsgs at hm
-  simp only [List.mem_flatMap] at hm
-  obtain ⟨p, hpm, hmp⟩ := hm
-  obtain ⟨i, hi, rfl⟩ := List.getElem_of_mem hpm
-  exact (hp i hi).2.2.2 m hmp
+    ∃ evs b', rebalance b ords evs = some b' := by
+  have hok := rebalanceOk_of_perms b ords hr hords
+  obtain ⟨evs, st', hrun, hd⟩ := RInv.complete _ _ (rebalanceInit_inv b ords hw hr hok) (Nat.le_refl _)
+  exact ⟨evs, { b with bags := st'.bags }, by simp [rebalance, hok, hrun, hd]⟩
 
 /-- the tree as found (D4): with fewer items than ranks the large block size is `0` and the first
 target computation divides by zero; the repaired expression does not -/
@@ -252,56 +372,29 @@ theorem localShuffle_conserved [BEq α] [LawfulBEq α] {b b' : Bag α} {r : Nat}
       · simp [hs]
     · simp at h
 
-theorem zipWith_items (l : List α) (ds : List Nat) (h : ds.length = l.length) :
-    (List.zipWith (fun x d => ({ dest := d, items := [x] } : Msg α)) l ds).flatMap (·.items) = l := by
-  induction l generalizing ds with
-  | nil => simp
-  | cons x xs ih =>
-    cases ds with
-    | nil => simp at h
-    | cons d ds => simp [List.flatMap_cons, ih ds (by simpa using h)]
-
-theorem flatMap_flatten (mss : List (List (Msg α))) :
-    mss.flatten.flatMap (·.items) = (mss.map (fun ms => ms.flatMap (·.items))).flatten := by
-  induction mss with
-  | nil => rfl
-  | cons x xs ih => simp [List.flatMap_append, ih]
-
 theorem flatten_map_nil (L : List (List α)) : (L.map (fun _ => ([] : List α))).flatten = [] := by
   induction L with
   | nil => rfl
   | cons x xs ih => simp [ih]
 
-/-- **items_conserved** for `global_shuffle`, for every drawn destination list and execution order -/
-theorem globalShuffle_conserved {b b' : Bag α} {dests : List (List Nat)} {sched : List Nat}
-    (h : globalShuffle b dests sched = some b') :
+/-- **items_conserved** for `global_shuffle`, for every drawn destination and every interleaving of
+the ranks' swap-outs with the executions of the sends (an item that reaches a rank before its
+swap-out is sent on once more) -/
+theorem globalShuffle_conserved {b b' : Bag α} {evs : List Ev}
+    (h : globalShuffle b evs = some b') :
     (items b').Perm (items b) ∧ b'.bags.length = b.bags.length ∧ b'.ranks = b.ranks := by
   unfold globalShuffle at h
   split at h
+  next st hrun =>
+    split at h
+    next hd =>
+      simp only [Option.some.injEq] at h
+      subst h
+      obtain ⟨hp, hl, _⟩ := Net.run_conserved hrun
+      obtain ⟨hf, _⟩ := Net.done_inv hd
+      exact ⟨by simpa [Net.all, hf, items] using hp, hl, rfl⟩
+    · simp at h
   · simp at h
-  next mss hm =>
-    have hspec := deliverSched_spec h
-    obtain ⟨hl, hp⟩ := allSome_map_range hm
-    refine ⟨?_, by simpa using hspec.2.2.1, hspec.1⟩
-    refine hspec.2.2.2.1.trans ?_
-    simp only [items, flatten_map_nil, List.nil_append]
-    rw [flatMap_flatten]
-    have : mss.map (fun ms => ms.flatMap (·.items)) = b.bags := by
-      apply List.ext_getElem
-      · simp [hl]
-      · intro i h1 h2
-        have hi : i < b.bags.length := h2
-        have := hp i hi
-        rw [List.getElem?_eq_getElem (by simpa using h1)] at this
-        simp only [List.getElem_map]
-        unfold shuffleMsgs at this
-        split at this
-        next hlen =>
-          simp only [Option.some.injEq] at this
-          rw [← this, zipWith_items _ _ hlen, List.getD_eq_getElem?_getD, List.getElem?_eq_getElem h2]
-          rfl
-        · simp at this
-    rw [this]
 
 /-- **items_conserved** for `swap`: each bag holds exactly what the other held, on the same ranks -/
 theorem swap_conserved (a b : Bag α) :
@@ -346,16 +439,16 @@ theorem step_conserved [BEq α] [LawfulBEq α] {s s' : St α} {o : Op α} (hw : 
       have sp := deliverSched_spec hd
       refine ⟨by simpa [Op.inserted] using sp.2.2.2.1, ?_, sp.1⟩
       unfold WF; rw [sp.2.2.1, sp.1]; exact hw
-  | rebalance ords sched =>
+  | rebalance ords evs =>
     simp only [step] at h
     split at h
     next hpe =>
-      cases hd : BagOps.rebalance s.bag ords sched with
+      cases hd : BagOps.rebalance s.bag ords evs with
       | none => simp [hd] at h
       | some b1 =>
         simp only [hd, Option.map_some, Option.some.injEq] at h
         subst h
-        have sp := rebalance_conserved hw hr hd
+        have sp := rebalance_conserved hw hd
         exact ⟨by simpa [Op.inserted] using List.Perm.append_right _ sp.1, sp.2.1, sp.2.2⟩
     · simp at h
   | lshuffle r new =>
@@ -371,11 +464,11 @@ theorem step_conserved [BEq α] [LawfulBEq α] {s s' : St α} {o : Op α} (hw : 
         refine ⟨by simpa [Op.inserted] using List.Perm.append_right _ sp.1, ?_, sp.2.2.1⟩
         unfold WF; rw [sp.2.1, sp.2.2.1]; exact hw
     · simp at h
-  | gshuffle dests sched =>
+  | gshuffle evs =>
     simp only [step] at h
     split at h
     next hpe =>
-      cases hd : globalShuffle s.bag dests sched with
+      cases hd : globalShuffle s.bag evs with
       | none => simp [hd] at h
       | some b1 =>
         simp only [hd, Option.map_some, Option.some.injEq] at h
@@ -671,12 +764,25 @@ theorem tag_visits_item {tb : TBag α} (hnd : (tb.store.map (·.1)).Nodup) (t : 
 
 /-- 2 items on 4 ranks, both on rank 3 (fewer items than ranks, empty ranks): rebalance succeeds and
 gives 1,1,0,0 -/
-example : ((rebalance ({ ranks := 4, bags := [[], [], [], [7, 8]], rr := [0, 0, 0, 0] } : Bag Nat) [[], [], [], [1, 0]] [0, 1]).map
-    (·.bags)) = some [[7], [8], [], []] := by decide
+example : ((rebalance ({ ranks := 4, bags := [[], [], [], [7, 8]], rr := [0, 0, 0, 0] } : Bag Nat) [[], [], [], [1, 0]]
+    [.act 3 [], .act 3 [], .recv 0, .recv 0]).map (·.bags)) = some [[7], [8], [], []] := by decide
+/-- 6 items as 1,4,1 on 3 ranks: rank 1 ships to 0 and 2 -/
+example : ((rebalance ({ ranks := 3, bags := [[1], [2, 3, 4, 5], [6]], rr := [0, 0, 0] } : Bag Nat) [[], [2, 0], []]
+    [.act 1 [], .recv 0, .act 1 [], .recv 0]).map (·.bags)) = some [[1, 4], [2, 3], [6, 5]] := by decide
+/-- the interleaving decides WHICH items move, not how many: rank 2 ships two items to rank 1, rank 1 ships two to
+rank 0; if rank 2's vector is executed on rank 1 before rank 1 pops, rank 1 passes on those very items -/
+example : ((rebalance ({ ranks := 3, bags := [[], [1, 2], [3, 4, 5, 6]], rr := [0, 0, 0] } : Bag Nat) [[], [0], [1]]
+    [.act 2 [], .recv 0, .act 1 [], .recv 0]).map (·.bags)) = some [[5, 6], [1, 2], [3, 4]] ∧
+  ((rebalance ({ ranks := 3, bags := [[], [1, 2], [3, 4, 5, 6]], rr := [0, 0, 0] } : Bag Nat) [[], [0], [1]]
+    [.act 2 [], .act 1 [], .recv 0, .recv 0]).map (·.bags)) = some [[1, 2], [5, 6], [3, 4]] := by decide
 example : ((rebalance ({ ranks := 4, bags := [[], [], [], []], rr := [0, 0, 0, 0] } : Bag Nat) [[], [], [], []] []).map
     (·.bags)) = some [[], [], [], []] := by decide
-/-- an iteration order that is not a permutation of the keys is refused -/
-example : (rebalance ({ ranks := 2, bags := [[1, 2], []], rr := [0, 0] } : Bag Nat) [[], []] [0]).isNone = true := by decide
+/-- an iteration order that is not a permutation of the keys is refused; an unfinished run is refused -/
+example : (rebalance ({ ranks := 2, bags := [[1, 2], []], rr := [0, 0] } : Bag Nat) [[], []] []).isNone = true := by decide
+example : (rebalance ({ ranks := 2, bags := [[1, 2], []], rr := [0, 0] } : Bag Nat) [[1], []] [.act 0 []]).isNone = true := by decide
+/-- global_shuffle on 2 ranks where rank 1's item reaches rank 0 before rank 0 swaps out and is sent on -/
+example : ((globalShuffle ({ ranks := 2, bags := [[1], [2]], rr := [0, 0] } : Bag Nat)
+    [.act 1 [0], .recv 0, .act 0 [1, 1], .recv 0, .recv 0]).map (·.bags)) = some [[], [1, 2]] := by decide
 example : tag 3 0 = 3298534883328 := by decide
 
 end YgmVerif.BagOps
